@@ -34,13 +34,13 @@ def dependents_closure(specs, seeds):
     return out
 
 
-def make(n, kinds, jobs_hi, orders="rev", launch=True, signals=True, stop_early_bit=True, batch=False):
+def make(n, kinds, jobs_hi, orders="rev", launch=True, signals=True, stop_early_bit=True, batch=False, max_fail=None):
     def fn(g):
         specs = graphs.sym_graph(g, n, kinds, orders=orders)
         root = n - 1
         stop_early = g.flag("stop_early") if stop_early_bit else False
         jobs = g.fresh_int("jobs", 1, jobs_hi, opaque=False)
-        sched = graphs.SymSched(g, signals=signals, launch_failures=launch, on_spawn=graphs.output_writer, batch=batch)
+        sched = graphs.SymSched(g, signals=signals, launch_failures=launch, on_spawn=graphs.output_writer, batch=batch, max_fail=max_fail)
         res = graphs.run_graph(g, specs, root, again=True, jobs=jobs, stop_early=stop_early, sched=sched, adversarial=batch)
         try:
             graphs.crash_check(g, res, specs)
@@ -148,6 +148,15 @@ def spaces(tier):
                     "--stop-early, batched exits", depth=9,
                     preset={"e0_3": True, "e1_3": True, "e2_3": True, "k0": 0, "k1": 0, "k2": 0, "k3": 1, "rev3": False,
                             "stop_early": True, "jobs": 2}))
+    sp.append(Space("n5-fanin-one-launch-failure", make(5, ("run_command", "group"), 2, launch=True, signals=False, max_fail=1),
+                    "5 tasks: a group root over 4 parallelizable run_command tasks, every edge set among the four, --jobs 2, at most one "
+                    "failure (failed launch or non-zero exit)", depth=10,
+                    preset={"e0_4": True, "e1_4": True, "e2_4": True, "e3_4": True, "k0": 0, "k1": 0, "k2": 0, "k3": 0, "k4": 1,
+                            "rev4": False, "stop_early": False, "jobs": 2, "p0": True, "p1": True, "p2": True, "p3": True}))
+    sp.append(Space("n4-fanin-batched-stop-early-j3", make(4, ("run_command", "group"), 3, launch=False, signals=False, batch=True),
+                    "the same fan-in family with --jobs 3 (three tasks in flight, two exits in one delivery, one still running)", depth=9,
+                    preset={"e0_3": True, "e1_3": True, "e2_3": True, "k0": 0, "k1": 0, "k2": 0, "k3": 1, "rev3": False,
+                            "stop_early": True, "jobs": 3}))
     if tier == "thorough":
         sp.append(Space("n3-allkinds-j2-all-failure-modes", make(3, graphs.ALL_KINDS, 2),
                         "N<=3 as above with all three failure modes per child", depth=8, tiers=("thorough",)))
